@@ -650,6 +650,19 @@ m("c11-merge-naked-delete-keeps-start-tail-from-cursor", "C11", "nomt/src/merkle
         ("nomt/src/merkle/seek.rs",
          "                if key_path == Some(&overlay_key) {\n                    // The leaf data has been updated in the overlay.\n                    beatree_leaf_idx += 1;\n                }",
          "                final_leaf_data_collection\n                    .extend_from_slice(&collected_leaf_data[start_idx..beatree_leaf_idx]);\n                if key_path == Some(&overlay_key) {\n                    // The leaf data has been updated in the overlay.\n                    beatree_leaf_idx += 1;\n                }\n                start_idx = beatree_leaf_idx;")])
+# ---- benign probes for O17 / O18 / E1 ----
+m("benign-write-wal-truncates-through-helper", "C04", "nomt/src/bitbox/writeout.rs",
+  "pub(super) fn write_wal(mut wal_fd: &File, wal_blob: &[u8]) -> std::io::Result<()> {\n    wal_fd.set_len(0)?;\n    wal_fd.seek(SeekFrom::Start(0))?;",
+  "pub(super) fn write_wal(mut wal_fd: &File, wal_blob: &[u8]) -> std::io::Result<()> {\n    truncate_wal(wal_fd, false)?;",
+  None)
+m("benign-redo-elided-word-before-label", "C03", "nomt/src/bitbox/mod.rs",
+  "                // Label the page.\n                page[PAGE_SIZE - 32..].copy_from_slice(&page_id);\n                // Write elided children bitfield.\n                page[PAGE_SIZE - 32 - 8..PAGE_SIZE - 32]\n                    .copy_from_slice(&elided_children.to_bytes());",
+  "                // Write elided children bitfield.\n                page[PAGE_SIZE - 32 - 8..PAGE_SIZE - 32]\n                    .copy_from_slice(&elided_children.to_bytes());\n                // Label the page.\n                page[PAGE_SIZE - 32..].copy_from_slice(&page_id);",
+  None)
+m("benign-delta-encode-if-let", "C09", "nomt/src/rollback/delta.rs",
+  "            match value {\n                None => to_erase.push(key),\n                Some(value) => to_reinstate.push((key, value)),\n            }",
+  "            if let Some(value) = value {\n                to_reinstate.push((key, value));\n            } else {\n                to_erase.push(key);\n            }",
+  None)
 # ---- benign probes for K1 / W6 ----
 m("benign-rollback-returns-commit-result", "C09", "nomt/src/lib.rs",
   "        finished.commit(&self)?;\n\n        Ok(())\n    }",
